@@ -5,7 +5,13 @@ mechanism and judge them with the property-level oracles below (`oracle_c07`, `o
 
 Checker mode: which ready branch `tokio::select!` takes is its RNG's choice, so every operation line is handed to the
 model together with the implementation's observation; the driver explores every order of the enabled transitions and
-accepts the observation iff some order yields it."""
+accepts the observation iff some order yields it.
+
+Since the c-round (seeded C07-c1, C07-c2, C09-c1): channels can be small and full (`cap=`, `mcap=`, `fill`, `pause`), real
+time can pass with a channel held full (`sleep <ms>`; the configurable timeouts are small: `sot=<ms>`, and the transport of a
+`via=accept` connection has connection_open_timeout = 1 s), connections can go through the REAL `TcpTransport::accept` future
+(`via=accept`, `accept`; model Model/Conn/Accept.lean), and held substreams can be half-closed and read from (`half_close`,
+`read_sub`, `remote_send`). Durations are never compared."""
 from .common import bump
 
 AREA = "tcploop"
@@ -73,15 +79,151 @@ def span_case(rng):
     return ops
 
 
+RUNLIKE = ("run", "sleep", "resume", "accept", "drop_rx")
+EXITED = ("ok", "err", "end")
+
+
+def close_cause(rng, n, allow_idle=True):
+    """Operations that end the connection: each is a different close path of the loop."""
+    c = rng.choice(["remote_close", "remote_goaway", "force_close", "idle"] if allow_idle else
+                   ["remote_close", "remote_goaway", "force_close"])
+    if c == "force_close":
+        return [f"force_close {rng.randrange(n)}"]
+    if c == "idle":
+        order = list(range(n))
+        rng.shuffle(order)
+        return [rng.choice([f"downgrade {i}", f"drop_handle {i}"]) for i in order]
+    return [c]
+
+
+def hold_case(rng, ms, sot=None):
+    """The C07-c1 shape: the connection ends while one protocol's (or the manager's) channel is full and STAYS full
+    for `ms` of real time; then the slow party catches up: every report must still arrive, exactly once. `ms` = 6000
+    outlasts hard-coded bounds of a few seconds; with `sot` (the one timeout a TcpConnection takes from configuration)
+    made small, 1.5 s outlasts a bound derived from configuration."""
+    ka = rng.choice(["YY", "YN", "NY", "YYY", "Y"])
+    n = len(ka)
+    who = rng.choice(["proto", "proto", "proto", "mgr"])
+    opts = (" cap=1" if who == "proto" else f" cap={rng.choice([1, 2])} mcap=1") + (f" sot={sot}" if sot else "")
+    ops = [f"conn ka={ka}{opts}"]
+    if who == "mgr":
+        ops += ["pause m", "fill m"]
+        ops += close_cause(rng, n) + ["run", f"sleep {ms}", "resume m", "run"]
+        return ops
+    slow = rng.randrange(n)
+    if rng.random() < 0.5:
+        ops += [f"pause {slow}", f"fill {slow}"]
+        ops += close_cause(rng, n)
+    else:
+        # the channel is full of a substream the loop delivered (it holds permits: no idle close)
+        ops += [f"pause {slow}", f"remote_open {slow} full", "run"]
+        ops += close_cause(rng, n, allow_idle=False)
+    ops += ["run", f"sleep {ms}", f"resume {slow}", "run"]
+    return ops
+
+
+def accept_hold_case(rng, ms):
+    """The C07-c2 shape: a connection is being accepted (the REAL future of TcpTransport::accept, transport built with
+    connection_open_timeout = 1 s) while one protocol's channel is full and stays full for `ms`; the others have been told
+    `established` meanwhile. When the slow protocol catches up the connection must come up for everyone, and when it
+    ends everyone must be told exactly once."""
+    ka = rng.choice(["YY", "YN", "NY", "YYY", "YYN"])
+    n = len(ka)
+    slow = rng.randrange(n)
+    ops = [f"conn ka={ka} cap={rng.choice([1, 1, 2])} via=accept", f"pause {slow}", f"fill {slow}", "accept"]
+    others = [i for i in range(n) if i != slow]
+    for _ in range(rng.randrange(3)):
+        i = rng.choice(others)
+        ops.append(rng.choice([f"downgrade {i}", f"local_open {i}", f"upgrade {i}", f"remote_open {i} full", "run"]))
+    ops += [f"sleep {ms}", f"resume {slow}", "run"]
+    ops += close_cause(rng, n) + ["run", "run"]
+    return ops
+
+
+def accept_case(rng):
+    """Accept path without real-time waits: channels with room or full, resumed at once."""
+    ka = kinds(rng)
+    n = len(ka)
+    ops = [f"conn ka={ka} cap={rng.choice([1, 2, 64])} via=accept"]
+    for i in range(n):
+        r = rng.random()
+        if r < 0.3:
+            ops += [f"pause {i}", f"fill {i}"]
+        elif r < 0.4:
+            ops += [f"pause {i}"]
+        elif r < 0.45:
+            ops += [f"drop_rx {i}"]
+    ops.append("accept")
+    for _ in range(rng.randrange(4)):
+        i = rng.randrange(n)
+        ops.append(rng.choice([f"downgrade {i}", f"local_open {i}", f"remote_open {i} full", "run", f"resume {i}",
+                               f"drop_handle {i}", "sleep 5"]))
+    for i in range(n):
+        if rng.random() < 0.8:
+            ops.append(f"resume {i}")
+    ops += ["run"] + close_cause(rng, n) + ["run", "run"]
+    return ops
+
+
+def half_case(rng):
+    """The C09-c1 shape: a protocol half-closes a substream it holds (Sink::poll_close), keeps the object and reads from
+    it, while every handle is released (keep-alive expiry); the connection must stay until the object is dropped."""
+    ka = kinds(rng)
+    n = len(ka)
+    j = rng.randrange(n)
+    inbound = rng.random() < 0.6
+    ops = [f"conn ka={ka}" + rng.choice(["", "", " cap=2"])]
+    ops += [f"remote_open {j} full", "run"] if inbound else [f"local_open {j}", "run", "run"]
+    pre = rng.random() < 0.5
+    order = list(range(n))
+    rng.shuffle(order)
+    rel = []
+    for i in order:
+        rel.append(rng.choice([f"downgrade {i}", f"downgrade {i}", f"drop_handle {i}"]))
+        if rng.random() < 0.3:
+            rel.append("run")
+    if pre:
+        ops += rel + ["run", f"half_close {j}"]
+    else:
+        ops += [f"half_close {j}"] + (["run"] if rng.random() < 0.5 else []) + rel
+    ops += ["run", "run"]
+    if inbound and rng.random() < 0.5:
+        ops += ["remote_send 0", "run"]
+    ops += [f"read_sub {j}", "run"]
+    end = rng.choice(["drop_sub", "drop_sub", "keep", "remote_close"])
+    if end == "drop_sub":
+        ops += [f"drop_sub {j}", "run"]
+    elif end == "remote_close":
+        ops += ["remote_close", "run"]
+    return ops
+
+
 def random_case(rng, length):
     ka = kinds(rng)
     n = len(ka)
-    ops = [f"conn ka={ka} remote={rng.choice(['accept', 'accept', 'refuse', 'stall'])}"]
+    via = rng.random() < 0.15
+    head = f"conn ka={ka} remote={rng.choice(['accept', 'accept', 'refuse', 'stall'])}"
+    if rng.random() < 0.35:
+        head += f" cap={rng.choice([1, 1, 2, 3])}"
+    if rng.random() < 0.1:
+        head += " mcap=1"
+    if rng.random() < 0.05:
+        head += " sot=3000"
+    ops = [head + (" via=accept" if via else "")]
+    accept_at = rng.randrange(0, 4) if via else -1
     opened = 0
     proposed = {}
-    for _ in range(length):
+    for step in range(length):
+        if step == accept_at:
+            ops.append("accept")
         r = rng.random()
         i = rng.randrange(n)
+        if r < 0.10:
+            ops.append(rng.choice([f"fill {i}", f"fill {i}", "fill m", "pause m", "resume m", f"half_close {i}",
+                                   f"half_close {i}", f"read_sub {i}", f"remote_send {rng.randrange(opened + 1)}",
+                                   f"sleep {rng.choice([1, 5, 20])}", f"pause {i}", f"resume {i}", f"resume {i}"]))
+            continue
+        r = (r - 0.10) / 0.90
         if r < 0.28:
             ops.append("run")
         elif r < 0.40:
@@ -142,7 +284,22 @@ def fixed_cases():
         # graceful end of the remote (yamux go-away): the `None` arm of handle_yamux_substream
         ["conn ka=YN", "remote_goaway", "run", "run"],
         ["conn ka=Y", "remote_open 0 full", "run", "remote_goaway", "run"],
-        ["conn ka=YYYYY"], ["run"], ["conn ka=Y", "bogus"],
+        # half-closed substream of a keep-alive protocol across the expiry of every handle, read from, then dropped
+        ["conn ka=Y", "remote_open 0 full", "run", "half_close 0", "run", "downgrade 0", "run", "run", "remote_send 0",
+         "run", "read_sub 0", "drop_sub 0", "run"],
+        ["conn ka=YN", "local_open 0", "run", "run", "downgrade 1", "downgrade 0", "run", "half_close 0", "run", "run",
+         "drop_sub 0", "run"],
+        # ... of a ping-like protocol: never held the connection
+        ["conn ka=N", "remote_open 0 full", "run", "half_close 0", "downgrade 0", "run"],
+        # full channel: the close report waits, nothing is lost
+        ["conn ka=YY cap=1", "pause 0", "fill 0", "remote_close", "run", "sleep 30", "resume 0", "run"],
+        ["conn ka=Y mcap=1", "pause m", "fill m", "force_close 0", "run", "sleep 30", "resume m", "run"],
+        # accept with a full channel: suspended, the others told; comes up when the slow protocol reads
+        ["conn ka=YY cap=1 via=accept", "pause 0", "fill 0", "accept", "downgrade 1", "sleep 30", "resume 0", "run",
+         "remote_close", "run"],
+        ["conn ka=YN via=accept", "accept", "remote_open 1 full", "run", "remote_goaway", "run"],
+        ["conn ka=Y via=accept", "run", "accept", "accept", "downgrade 0", "run"],
+        ["conn ka=YYYYY"], ["run"], ["conn ka=Y", "bogus"], ["conn ka=Y cap=0"], ["conn ka=Y", "sleep 99999"],
     ]
 
 
@@ -156,6 +313,24 @@ def gen_cases(rng, tier, focus=None):
     if focus == "C07":
         n_span //= 2
     cases = [list(c) for c in fixed_cases()]
+    # real-time holds (kept few: each costs its wall time in one shard). C07: one 6 s hold per quick run (hard-coded
+    # bounds), a few 1.5 s holds (bounds from configuration: substream_open_timeout / connection_open_timeout = 1 s).
+    n_long = {"quick": 1, "thorough": 4, "search": 0}[tier]
+    n_short = {"quick": 3, "thorough": 24, "search": 1}[tier]
+    n_acc_hold = {"quick": 3, "thorough": 24, "search": 1}[tier]
+    if focus == "C09":
+        n_long, n_short, n_acc_hold = 0, 0, (1 if tier != "search" else 0)
+    cases += [hold_case(rng, 6000) for _ in range(n_long)]
+    cases += [hold_case(rng, 1500, sot=1000) for _ in range(n_short)]
+    cases += [accept_hold_case(rng, 1500) for _ in range(n_acc_hold)]
+    n_half = {"quick": 40, "thorough": 800, "search": 60}[tier]
+    n_acc = {"quick": 30, "thorough": 600, "search": 40}[tier]
+    if focus == "C07":
+        n_half //= 4
+    if focus == "C09":
+        n_acc //= 3
+    cases += [half_case(rng) for _ in range(n_half)]
+    cases += [accept_case(rng) for _ in range(n_acc)]
     if focus != "C09":
         cases.append([f"arrange_race {RACE_ROUNDS[tier]}"])
     else:
@@ -208,17 +383,23 @@ def race_outcomes(o):
 # ------------------------------------------------------------------------------------------ oracle C07
 
 def oracle_c07(case, out):
-    """Once the loop has returned, every live protocol and the manager have exactly one closed report; nobody is ever
-    told twice; nobody is told while the connection task is still running."""
+    """Once the connection task has returned, every live protocol and the manager have exactly one closed report — a
+    protocol (or the manager) that is busy gets it when it catches up, however long that takes; nobody is ever told twice;
+    nobody is told before the task exists, nor (where no channel can be full) while it is still running; a protocol that
+    was told `established` by an accept that is then abandoned (`loop=failed`: the connection is dropped without a task)
+    must be told `closed` all the same."""
     bad = []
 
     def v(kind, msg, i):
         bad.append({"kind": kind, "msg": msg, "step": i, "op": case[i], "out": out[i] if i < len(out) else None})
 
     got = {}
+    est = {}
     mgr = 0
     exited_at = None
     paused, dead = set(), set()
+    mgr_paused = False
+    can_fill = any(a.startswith(("cap=", "mcap=")) for a in case[0].split()[1:]) if case else False
     n = 0
     for i, op in enumerate(case):
         if i >= len(out):
@@ -248,13 +429,22 @@ def oracle_c07(case, out):
         if d is None:
             continue
         n = max(n, len(d["p"]))
-        if t[0] == "pause" and d["ret"] == "ok":
-            paused.add(int(t[1]))
-        if t[0] == "resume" and d["ret"] == "ok":
-            paused.discard(int(t[1]))
+        if t[0] == "fill":
+            can_fill = True
+        if t[0] == "pause" and d["ret"] == "ok" and len(t) == 2:
+            if t[1] == "m":
+                mgr_paused = True
+            elif t[1].isdigit():
+                paused.add(int(t[1]))
+        if t[0] == "resume" and d["ret"] == "ok" and len(t) == 2:
+            if t[1] == "m":
+                mgr_paused = False
+            elif t[1].isdigit():
+                paused.discard(int(t[1]))
         dead |= d.get("dead", set())
         for k, msgs in d["p"].items():
             got[k] = got.get(k, 0) + msgs.count("C")
+            est[k] = est.get(k, 0) + msgs.count("E")
             if got[k] > 1:
                 v("closed-twice", f"protocol {k} was told {got[k]} times that the connection closed", i)
                 return bad
@@ -262,19 +452,33 @@ def oracle_c07(case, out):
         if mgr > 1:
             v("closed-twice", f"the manager was told {mgr} times that the connection closed", i)
             return bad
-        if d["loop"] == "run" and (mgr or any(got.values())):
+        told = mgr or any(got.values())
+        if d["loop"] in ("parked", "accepting") and told:
+            v("closed-early", "a close report was delivered although the connection task has not even been started", i)
+            return bad
+        if d["loop"] == "run" and told and not can_fill:
+            # with room in every channel a report is not suspended: the task returns in the same poll
             v("closed-early", "a close report was delivered although the connection task is still running", i)
             return bad
-        if d["loop"] in ("ok", "err") and exited_at is None:
+        if d["loop"] in EXITED and exited_at is None:
             exited_at = i
         if exited_at is not None:
-            # channels never fill in this area (capacity 64), so the reports are there as soon as start() returned
+            # whoever is not paused has taken everything there is (run-like operations drain until nothing arrives)
             missing = [k for k in range(n) if k not in dead and k not in paused and got.get(k, 0) != 1]
             if missing:
-                v("closed-missing-proto", f"start() returned ({d['loop']}) but running protocol(s) {missing} got no close report", i)
+                v("closed-missing-proto", f"the connection task has returned ({d['loop']}) but running protocol(s) {missing} "
+                  "got no close report" + (" (after having been busy for a while)" if can_fill else ""), i)
                 return bad
-            if mgr != 1:
-                v("closed-missing-mgr", f"start() returned ({d['loop']}) but the manager got no close report", i)
+            if mgr != 1 and not mgr_paused:
+                v("closed-missing-mgr", f"the connection task has returned ({d['loop']}) but the manager got no close report"
+                  + (" (a protocol or the manager was busy for a while)" if can_fill else ""), i)
+                return bad
+        if d["loop"] == "failed":
+            # the accept was abandoned: the negotiated connection is gone and no task will ever report it
+            owed = [k for k in range(n) if k not in dead and k not in paused and est.get(k, 0) >= 1 and got.get(k, 0) != 1]
+            if owed:
+                v("established-not-closed", f"accepting the connection failed (the connection was dropped, no connection task "
+                  f"exists) after protocol(s) {owed} had been told that it was established: they are never told that it closed", i)
                 return bad
     return bad
 
@@ -302,9 +506,12 @@ def oracle_c09(case, out):
                     break
         return bad
     ka = ""
+    via = timeouts = False
     for a in case[0].split()[1:]:
         if a.startswith("ka="):
             ka = a[3:]
+        via = via or a == "via=accept"
+        timeouts = timeouts or a.startswith("sot=")
     n = len(ka)
     # inbound streams: target protocol (first known-name proposal anywhere in the case)
     target, opened = {}, 0
@@ -319,8 +526,9 @@ def oracle_c09(case, out):
             if k not in target and t[2].isdigit() and int(t[2]) < n:
                 target[k] = int(t[2])
     other_cause = False
-    active = [True] * n     # the protocols' handles (all take the connection at `conn`)
+    active = [not via] * n  # the protocols' handles (taken with the `established` event)
     paused_now = set()
+    mgr_paused = False
     oi_total = 0            # inbound substreams delivered, all protocols
     any_uncertain = False
     uncertain = set()
@@ -362,9 +570,25 @@ def oracle_c09(case, out):
             cmds[int(t[1])] += 1
         if t[0] == "drop_sub" and d["ret"] == "ok":
             dropped[int(t[1])] += 1
-        if t[0] in ("pause",):
-            uncertain.add(int(t[1]))
+        if t[0] == "pause" and len(t) == 2:
+            if t[1] == "m":
+                mgr_paused = True
+            elif t[1].isdigit() and int(t[1]) < n:
+                uncertain.add(int(t[1]))
+                any_uncertain = True
+                paused_now.add(int(t[1]))
+        if t[0] == "resume" and len(t) == 2:
+            if t[1] == "m":
+                mgr_paused = False
+            elif t[1].isdigit():
+                paused_now.discard(int(t[1]))
+        if t[0] == "fill":
             any_uncertain = True
+        for k, msgs in d["p"].items():
+            if k < n and "E" in msgs:
+                active[k] = True
+        # a report may be waiting for somebody who is busy: the loop is then neither idle nor done
+        blocked = bool(paused_now) or mgr_paused
         if t[0] == "remote_reset" and d["ret"] == "ok":
             any_uncertain = any_uncertain or bool(proposal_known.get(int(t[1]))) if t[1].isdigit() else any_uncertain
         if t[0] in ("downgrade", "drop_handle") and t[1].isdigit() and int(t[1]) < n and d["ret"] in ("ok", "none"):
@@ -372,7 +596,7 @@ def oracle_c09(case, out):
         if t[0] == "upgrade" and t[1].isdigit() and int(t[1]) < n:
             active[int(t[1])] = d["ret"] == "active"
         # state BEFORE this operation decides whether an exit during it is allowed
-        if t[0] == "run" and prev is not None and prev["loop"] == "run" and d["loop"] in ("ok", "err") and not other_cause:
+        if t[0] in RUNLIKE and prev is not None and prev["loop"] == "run" and d["loop"] in EXITED and not other_cause:
             for j in range(n):
                 if ka[j] != "Y" or j in uncertain:
                     continue
@@ -380,6 +604,8 @@ def oracle_c09(case, out):
                 # an open that FAILED during this very run was over before the loop ended
                 failed_now = d["p"].get(j, []).count("X")
                 pending = inbound + cmds[j] - received[j] - failed[j] - failed_now
+                if timeouts:
+                    pending = 0     # a negotiation may have timed out without a message
                 held = received[j] - dropped[j]
                 if held > 0 or pending > 0:
                     what = (f"{held} open substream(s)" if held > 0 else f"{pending} substream(s) being opened")
@@ -389,8 +615,8 @@ def oracle_c09(case, out):
         # (c) nothing at all keeps the connection: every handle downgraded or dropped, every open answered, every
         # accepted inbound substream delivered or reset, no keep-alive protocol holds a substream (substreams held by
         # ping-like protocols do not count), nothing paused: this `run` must end the loop
-        if t[0] == "run" and prev is not None and prev["loop"] == "run" and d["loop"] == "run" and not any_uncertain \
-                and not other_cause and not any(active):
+        if t[0] in RUNLIKE and d["ret"] == "ok" and prev is not None and prev["loop"] == "run" and d["loop"] == "run" and not any_uncertain \
+                and not other_cause and not any(active) and not blocked:
             live = [k for k in range(n_open) if k not in reset]
             all_answered = all(cmds[j] == failed[j] + (received[j] - oi[j]) for j in range(n))
             all_delivered = all(k in target for k in live) and oi_total == len(live) and acc_before == n_open
@@ -399,7 +625,8 @@ def oracle_c09(case, out):
                 v("idle-not-closed", "every protocol has let go of the connection, no substream of a keep-alive protocol is "
                   "open or being opened and nothing is in flight, yet the connection task is still running after `run`", i)
                 return bad
-        if t[0] == "run" and prev is not None and prev["loop"] == "run" and prev.get("strong") == "n" and d["loop"] == "run":
+        if t[0] in RUNLIKE and d["ret"] == "ok" and prev is not None and prev["loop"] == "run" and prev.get("strong") == "n" \
+                and d["loop"] == "run" and not blocked:
             v("idle-not-closed", "no strong sender of the command channel was left before `run`, yet the connection task "
               "is still running", i)
             return bad
@@ -427,16 +654,18 @@ def stats(case, out, acc, prefix="tcploop"):
         if t == "arrange_race":
             for loop, p, m, cnt, stuck in race_outcomes(o) or []:
                 bump(acc, f"{prefix}:race:{loop}", cnt)
-        elif t == "run":
+        elif t in RUNLIKE:
             d = parse(o)
-            if d and d["loop"] != "run":
+            if d and d["loop"] in EXITED:
                 bump(acc, f"{prefix}:exit:{d['loop']}")
+            if d and d["loop"] == "accepting":
+                bump(acc, prefix + ":accept-suspended")
         if o.endswith(" stuck"):
             bump(acc, prefix + ":stuck")
 
 
 def nontrivial(case, out):
-    return any(" loop=ok" in o or " loop=err" in o or "*" in o for o in out)
+    return any(" loop=ok" in o or " loop=err" in o or " loop=end" in o or "*" in o for o in out)
 
 
 def matches_known(k, v):
